@@ -129,6 +129,48 @@ def run(chk):
                         if isinstance(ch.value, ast.Name) and ch.value.id == OBJ and ch.attr not in out:
                             out.add(ch.attr)
                             changed = True
+        # local aliases of parts of the object: `scaler = <obj>._feature_scaler`
+        alias: Dict[str, str] = {}
+        for s in stmts:
+            if not (isinstance(s, ast.Assign) and len(s.targets) == 1):
+                continue
+            pairs = [(s.targets[0], s.value)]
+            if isinstance(s.targets[0], ast.Tuple) and isinstance(s.value, ast.Tuple) and len(s.targets[0].elts) == len(s.value.elts):
+                pairs = list(zip(s.targets[0].elts, s.value.elts))
+            for t_, v_ in pairs:
+                if isinstance(t_, ast.Name) and isinstance(v_, ast.Attribute):
+                    ch = v_
+                    while isinstance(ch.value, ast.Attribute):
+                        ch = ch.value
+                    if isinstance(ch.value, ast.Name) and ch.value.id == OBJ:
+                        alias[t_.id] = ch.attr
+        for s in stmts:     # <alias>.<x> = <tainted value>
+            val = s.value
+            if val is None or not (any(n in R.get(key, []) for n in ast.walk(val)) or any(isinstance(n, ast.Name) and n.id in tainted for n in ast.walk(val))):
+                continue
+            for t in (s.targets if isinstance(s, ast.Assign) else [s.target]):
+                ch = t
+                while isinstance(ch, (ast.Attribute, ast.Subscript)):
+                    ch = ch.value
+                if isinstance(t, (ast.Attribute, ast.Subscript)) and isinstance(ch, ast.Name) and ch.id in alias:
+                    out.add(alias[ch.id])
+        # setattr(<obj>.<attr>..., <name>, <tainted value>): an attribute store spelled as a call (attribute name taken from a table)
+        for c in calls_in(fd.node):
+            if isinstance(c.func, ast.Name) and c.func.id == "setattr" and len(c.args) == 3:
+                v_ = c.args[2]
+                if any(n in R.get(key, []) for n in ast.walk(v_)) or any(isinstance(n, ast.Name) and n.id in tainted for n in ast.walk(v_)):
+                    ch = c.args[0]
+                    if isinstance(ch, ast.Name) and ch.id in alias:
+                        out.add(alias[ch.id])
+                        continue
+                    if isinstance(ch, ast.Name) and ch.id == OBJ:
+                        if isinstance(c.args[1], ast.Constant) and isinstance(c.args[1].value, str):
+                            out.add(c.args[1].value)
+                        continue
+                    while isinstance(ch, ast.Attribute) and isinstance(ch.value, ast.Attribute):
+                        ch = ch.value
+                    if isinstance(ch, ast.Attribute) and isinstance(ch.value, ast.Name) and ch.value.id == OBJ:
+                        out.add(ch.attr)
         # constructor: cls(settings=<tainted>)
         for c in calls_in(fd.node):
             if isinstance(c.func, ast.Name) and c.func.id == "cls":
